@@ -2,6 +2,7 @@
 PROPERTY_GROUPS = {
     'C01': ['rep', 'dt'],
     'C02': ['rep', 'mp4'],
+    'C03': ['mp4'],
     'C04': ['mp4'],
     'C06': ['rep', 'timing', 'dt'],
     'C08': ['timing'],
